@@ -4,6 +4,7 @@ package main
 
 import (
 	"fmt"
+	"go/token"
 	"strings"
 
 	"golang.org/x/tools/go/ssa"
@@ -227,7 +228,48 @@ func (c *Ctx) exactReads() {
 				// early: ReadN would return a short slice that every caller takes for n bytes
 				switch callee(ci) {
 				case "(*bytes.Buffer).ReadFrom", "io.Copy", "io.ReadAll", "io/ioutil.ReadAll", "io.CopyBuffer":
-					c.bad(k+":"+callee(ci), ins.Pos(), "a decoding primitive fills its buffer with %s, which treats the end of the input as success: a truncated field is returned as if it were complete; use io.CopyN / io.ReadFull", callee(ci))
+					// fine when the primitive itself insists on the full count: every "return .., nil" lies
+					// behind the equal edge of a comparison of the byte count with the requested length
+					call, isCall := ins.(*ssa.Call)
+					exact := isCall
+					nilReturns := 0
+					if isCall {
+						acc := func(iff *ssa.If) (bool, bool) {
+							cm, truth, ok := cmpOf(iff.Cond)
+							if !ok || (cm.op != token.EQL && cm.op != token.NEQ) {
+								return false, false
+							}
+							isCount := func(v ssa.Value) bool {
+								for _, l := range leaves(v) {
+									if c2, idx := callOf(l); c2 == call && idx == 0 {
+										return true
+									}
+								}
+								return false
+							}
+							fromParam := func(v ssa.Value) bool {
+								return hasOrigin(v, func(o string) bool { return strings.HasPrefix(o, "param:") })
+							}
+							if !(isCount(cm.x) && fromParam(cm.y)) && !(isCount(cm.y) && fromParam(cm.x)) {
+								return false, false
+							}
+							eqOnTrue := (cm.op == token.EQL) == truth
+							return eqOnTrue, !eqOnTrue
+						}
+						for _, r := range returnsOf(fn) {
+							if n := len(r.Results); n > 0 && isErrorType(r.Results[n-1].Type()) && isNilConst(unspill(r, r.Results[n-1])) {
+								nilReturns++
+								if okG, _ := guarded(fn, r, acc); !okG {
+									exact = false
+								}
+							}
+						}
+					}
+					if exact && nilReturns > 0 {
+						c.ok(k+":"+callee(ci), ins.Pos(), "%s is followed by a check of the byte count against the requested length on every success return", callee(ci))
+					} else {
+						c.bad(k+":"+callee(ci), ins.Pos(), "a decoding primitive fills its buffer with %s, which treats the end of the input as success: a truncated field is returned as if it were complete; use io.CopyN / io.ReadFull", callee(ci))
+					}
 				}
 			}
 			if !ok || !isRead(ci) {
